@@ -369,6 +369,9 @@ def sci_units(unit):
     unit("sci/state=WAIT_CHECKSUM", r_sci_check)
 
 
+# checks whose proof units establish the callee contracts applied here (re-verified by this check, see main.dependency_units)
+DEPENDENCIES = ['C04', 'C05', 'C01']
+
 META = {
     "level": "proof",
     "bounds": {"LUBA": "every receiver state satisfying the representation invariant (payload length 1..20, any number of "
